@@ -23,6 +23,8 @@ type MRow struct {
 	K2  int32
 	Src int32
 	Seq int32
+	// T: a by-reference value naming the row ("t<src>.<seq>")
+	T string
 }
 
 type MRowN struct {
@@ -31,6 +33,7 @@ type MRowN struct {
 	K2  int32
 	Src int32
 	Seq int32
+	T   string
 }
 
 // mrow is the harness-side view of a row of either type.
@@ -168,11 +171,13 @@ func c09Attrs(r mrow) []int64 {
 	return a
 }
 
+func c09Tag(r mrow) string { return fmt.Sprintf("t%d.%d", r.src, r.seq) }
+
 func toGo(spec c09Spec, rows []mrow) (any, any) {
 	if spec.nullable {
 		out := make([]MRowN, len(rows))
 		for i, r := range rows {
-			out[i] = MRowN{A: c09Attrs(r), K2: r.k2, Src: r.src, Seq: r.seq}
+			out[i] = MRowN{A: c09Attrs(r), K2: r.k2, Src: r.src, Seq: r.seq, T: c09Tag(r)}
 			if !r.null {
 				out[i].K = ptrTo(r.k)
 			}
@@ -181,7 +186,7 @@ func toGo(spec c09Spec, rows []mrow) (any, any) {
 	}
 	out := make([]MRow, len(rows))
 	for i, r := range rows {
-		out[i] = MRow{A: c09Attrs(r), K: r.k, K2: r.k2, Src: r.src, Seq: r.seq}
+		out[i] = MRow{A: c09Attrs(r), K: r.k, K2: r.k2, Src: r.src, Seq: r.seq, T: c09Tag(r)}
 	}
 	return nil, out
 }
@@ -245,6 +250,7 @@ func colNames(s *parquet.Schema) []string {
 
 func fromParquetRowNamed(names []string, r parquet.Row) mrow {
 	var m mrow
+	tag := ""
 	for _, v := range r {
 		switch names[v.Column()] {
 		case "K":
@@ -259,20 +265,29 @@ func fromParquetRowNamed(names []string, r parquet.Row) mrow {
 			m.src = v.Int32()
 		case "Seq":
 			m.seq = v.Int32()
+		case "T":
+			tag = v.String()
 		}
+	}
+	if tag != c09Tag(m) {
+		// the by-reference value no longer names the row: not a row of any input
+		m.src, m.seq = -1, -1
 	}
 	return m
 }
 
-var mrowNames = []string{"A", "K", "K2", "Src", "Seq"}
+var mrowNames = []string{"A", "K", "K2", "Src", "Seq", "T"}
 
 func fromParquetRow(spec c09Spec, r parquet.Row) mrow { return fromParquetRowNamed(mrowNames, r) }
 
 // chunkedReader is a RowReader over a slice that returns at most c rows per call.
+// The rows it hands out are valid until its next call only: their byte-array
+// values live in an arena that the next call overwrites.
 type chunkedReader struct {
 	rows    []parquet.Row
 	c       int
 	eofWith bool
+	arena   []byte
 }
 
 func (r *chunkedReader) ReadRows(buf []parquet.Row) (int, error) {
@@ -286,8 +301,23 @@ func (r *chunkedReader) ReadRows(buf []parquet.Row) (int, error) {
 	if n > len(r.rows) {
 		n = len(r.rows)
 	}
+	if r.arena == nil {
+		r.arena = make([]byte, 0, 1<<16)
+	}
+	full := r.arena[:cap(r.arena)]
+	for i := range full {
+		full[i] = '#'
+	}
+	r.arena = r.arena[:0]
 	for i := 0; i < n; i++ {
 		buf[i] = append(buf[i][:0], r.rows[i]...)
+		for j, v := range buf[i] {
+			if v.Kind() == parquet.ByteArray && !v.IsNull() {
+				off := len(r.arena)
+				r.arena = append(r.arena, v.ByteArray()...)
+				buf[i][j] = parquet.ByteArrayValue(r.arena[off:len(r.arena):len(r.arena)]).Level(v.RepetitionLevel(), v.DefinitionLevel(), v.Column())
+			}
+		}
 	}
 	r.rows = r.rows[n:]
 	if len(r.rows) == 0 && r.eofWith {
